@@ -435,19 +435,22 @@ func countingLoopIndex(idx ssa.Value) (bound ssa.Value, ok bool) {
 		}
 		return cmp.Y
 	}
-	if phi, ok := idx.(*ssa.Phi); ok && len(phi.Edges) == 2 {
-		zero, inc := false, false
+	if phi, ok := idx.(*ssa.Phi); ok {
+		zero, inc, other := false, false, false
 		for _, e := range phi.Edges {
 			if k, ok := constInt(e); ok && k == 0 {
 				zero = true
+				continue
 			}
 			if b, ok := e.(*ssa.BinOp); ok && b.Op == token.ADD && b.X == ssa.Value(phi) {
 				if k, ok := constInt(b.Y); ok && k == 1 {
 					inc = true
+					continue
 				}
 			}
+			other = true
 		}
-		if zero && inc {
+		if zero && inc && !other {
 			if bd := lssBound(phi.Block(), phi); bd != nil {
 				return bd, true
 			}
@@ -457,19 +460,20 @@ func countingLoopIndex(idx ssa.Value) (bound ssa.Value, ok bool) {
 	if add, ok := idx.(*ssa.BinOp); ok && add.Op == token.ADD {
 		phi, isPhi := add.X.(*ssa.Phi)
 		k, isC := constInt(add.Y)
-		if !isPhi || !isC || k != 1 || len(phi.Edges) != 2 || phi.Block() != add.Block() {
+		if !isPhi || !isC || k != 1 || phi.Block() != add.Block() {
 			return nil, false
 		}
-		m1, back := false, false
+		m1, back, other := false, false, false
 		for _, e := range phi.Edges {
 			if k, ok := constInt(e); ok && k == -1 {
 				m1 = true
-			}
-			if e == ssa.Value(add) {
+			} else if e == ssa.Value(add) {
 				back = true
+			} else {
+				other = true
 			}
 		}
-		if m1 && back {
+		if m1 && back && !other {
 			if bd := lssBound(add.Block(), add); bd != nil {
 				return bd, true
 			}
